@@ -55,9 +55,21 @@ def check_one(x: dict, d: dict, heads: list | None, ssbs: bool) -> list[tuple[st
     names = {o["off"]: o["name"] for r in x["ops"] for o in r}
     for k, (line, col) in m.items():
         why = entry_ok(text, line, col)
+        if names.get(k) == "Jump":
+            tl = text.split("\n")
+            here = tl[line][col:] if 0 <= line < len(tl) else ""
+            jumpish = ("jump @", "break_loop;", "continue;", "break;")
+            if why is None and here.startswith(jumpish):
+                continue
+            prev = tl[line - 1] if 1 <= line <= len(tl) else ""
+            if prev[col:].startswith(jumpish) and prev[:col].strip(" ") == "":
+                bad.append(("jump_entry_after_statement", f"op {k} (Jump): the entry names line {line}, the statement printed for it ({prev.strip()!r}) is on line {line - 1}"))
+            elif why is not None:
+                # known: an entry is recorded for every Jump op although no jump statement may be printed for it
+                bad.append(("jump_entry_without_statement", f"op {k} (Jump): {why}"))
+            continue
         if why:
-            kind = "jump_entry_without_statement" if names.get(k) == "Jump" else "entry_not_at_statement_start"
-            bad.append((kind, f"op {k} ({names.get(k)}): {why}"))
+            bad.append(("entry_not_at_statement_start", f"op {k} ({names.get(k)}): {why}"))
     y = d.get("recompiled")
     if y is None or "error" in y:
         return bad    # C02's business
@@ -87,7 +99,7 @@ def check_one(x: dict, d: dict, heads: list | None, ssbs: bool) -> list[tuple[st
 
 
 def run(run: core.Run) -> int:
-    n = 400 if run.tier == "quick" else 8000
+    n = 1200 if run.tier == "quick" else 8000
     prep = core.lean_prepare(MODULES)
     aud = core.audit(THEOREMS, MODULES) if prep["proofs_ok"] else {"obligations": len(THEOREMS), "discharged": 0, "ok": False, "theorems": {}}
     if not prep["driver_ok"]:
